@@ -61,3 +61,6 @@ add('C16', 'model_checking', 'explicit-state exploration of the path-distinguish
 add('C20', 'model_checking', 'stateless preemption-bounded exploration of real threads under a cooperative scheduler (sys.settrace, scheduler-aware lock) + explicit-state exploration of call histories over a digest of the global state',
     'All interleavings of 2-3 real threads through lexer creation/initialisation (scheduling points at every line, and at every opcode, of lexer.py outside the scan loop; preemption bound 1-3) and of pairs of concurrent parse/split/format calls (function-entry granularity, bound 1-2); every history of <= 3-4 operations from a 15-operation alphabet, each in a forked child, plus BFS over the digest-quotient graph of global states to fixpoint; in every state a probe suite must return what a fresh interpreter returns. Every model run executes the implementation itself.',
     'Trusted: CPython with the GIL (no sub-bytecode interleavings); the digest coverage list in vlib/digest.py; re\'s own pattern cache is outside.', 'DESIGN.md 4/C20')
+add('C15', 'fault_enumeration', 'exhaustive enumeration of stack head-room values x nesting constructs x depths x entry points x option sets, one forked child per case',
+    'For every nesting construct, depth, entry point and option set, EVERY head-room value in a window above the measured H_min (recursion limit = frame depth at the call + H) is tried in its own forked child, which moves the overflow point through every frame of every recursive routine; plus the first call of the process under every head-room from 1 (cold lexer) and head-rooms below H_min. Outcome must be a well-formed result or SQLParseError, the child must exit 0, and a later ordinary call must give the reference answers.',
+    'Trusted: CPython recursion accounting; DESIGN 4.0 reading 6; depths <= 250 (grouping is super-linear in depth).', 'DESIGN.md 4/C15')
